@@ -10,7 +10,7 @@ use crate::util::*;
 pub fn draw_cfg(rng: &mut Rng, thorough: bool) -> (SeqCfg, bool) {
     let is_set = rng.chance(1, 6);
     let profile = if rng.chance(1, 3) { 1 } else { 0 };
-    let mode = if profile == 1 { *rng.pick(&[CONSTANT, SAMEBIN, MIXED, SPLITTING, SPLITTING, MODGROUPS, REVERSED, ALLHIGH]) } else { *rng.pick(&ALL_MODES) };
+    let mode = if profile == 1 { *rng.pick(&CROWDED_MODES) } else { *rng.pick(&ALL_MODES) };
     let cap = if profile == 1 { *rng.pick(&[0usize, 16, 40, 48, 64, 70]) } else { rng.below(71) as usize };
     let universe = if profile == 1 { rng.range(12, 120) } else { rng.range(8, 96) };
     let steps = if thorough { rng.range(50, 2000) } else { rng.range(50, 700) } as usize;
